@@ -44,6 +44,7 @@ type Config struct {
 	DisableLRU         bool
 	Engine             string
 	WCrash, WReload    int  // per mille of steps
+	SparseQ            bool // C08: most steps issue one sampled lookup instead of QueriesPerStep
 	PoolAtMin          bool // C27: rewards pool at its minimum balance (rewards rate 0)
 	Intx               bool // C09: half of the park faults land INSIDE the storage transactions (crash there / fault there)
 	WPark              int  // per mille of steps: park the block write / tracker commit at a named site, then crash there or query meanwhile
@@ -81,12 +82,12 @@ type Sim struct {
 	kvScanned  basics.Round
 	kvCollAt   basics.Round
 	kvCollWhat string
-	stats     map[string]int64
-	stateDg   map[string]bool
-	viol      *kernel.Violation
-	known     []kernel.Violation
-	harness   string
-	step      int
+	stats      map[string]int64
+	stateDg    map[string]bool
+	viol       *kernel.Violation
+	known      []kernel.Violation
+	harness    string
+	step       int
 }
 
 func (s *Sim) stat(k string, d int64) { s.stats[k] += d }
@@ -121,6 +122,9 @@ func drawConfig(tp *kernel.Tape, prop, tier string) Config {
 		c.WPark = 60
 	}
 	c.Intx = prop == "C09"
+	if prop == "C08" {
+		c.SparseQ = tp.Chance("cfg.sparseq", 1, 2)
+	}
 	if prop == "C27" {
 		c.PoolAtMin = tp.Chance("cfg.poolmin", 3, 4)
 	}
